@@ -135,7 +135,7 @@ func ruleHandleEvent(c *Ctx) {
 		}
 		// a predicate helper: its own expression is classified through the view
 		if call, ok := v.(*ssa.Call); ok {
-			if sf := call.Call.StaticCallee(); sf != nil && t.isRepo(sf) && (t.interesting(sf, 0) || isParamPredicate(sf)) {
+			if sf := call.Call.StaticCallee(); sf != nil && t.isRepo(sf) && (t.interesting(sf, 0) || isParamPredicate(sf) || isParamDecision(sf)) {
 				return nil
 			}
 		}
